@@ -260,6 +260,8 @@ impl Gen {
             dvals.push(long_value('q', 183, "aa"));
             dvals.push(long_value('q', 183, "ab"));
             dvals.push(long_value('q', 300, "zz"));
+            dvals.push(long_value('q', 184, "\0\0")); // longer than 182 bytes, NUL tail
+            dvals.push(long_value('q', 260, "y"));
             dvals.push("dé".into());
             dvals.push("a:b".into());
             dvals.push("a".into());
@@ -1035,7 +1037,14 @@ impl Gen {
                 }
                 "reopen_close" => ops.push(Op::Reopen(ReopenKind::Close)),
                 "reopen_copy" => ops.push(Op::Reopen(ReopenKind::Copy)),
-                "rebuild" => ops.push(Op::Rebuild),
+                "rebuild" => {
+                    if self.rng.chance(1, 5) {
+                        // an operator reclaims disk space: one half of rebuild's backup is deleted
+                        ops.push(Op::RemoveBackup(self.rng.below(3) as u8));
+                    } else {
+                        ops.push(Op::Rebuild);
+                    }
+                }
                 "extra_put" => {
                     if self.extra_tables > 0 {
                         let t = self.rng.below(self.extra_tables as u64) as u8;
